@@ -721,3 +721,188 @@ pub fn replay_no_panic(entry: &str, input: &[u8]) -> String {
 
 #[allow(dead_code)]
 pub fn _unused(_: &dyn BufRead) {}
+
+// ---------------- C13: digests
+use pkgsrc::digest::Digest as PDigest;
+/// a reader with a scripted schedule: each step is Ok(n) (deliver up to n bytes), Interrupted, or a hard error
+pub struct SchedReader { pub data: Vec<u8>, pub pos: usize, pub sched: Vec<i32>, pub step: usize }
+impl Read for SchedReader {
+    fn read(&mut self, buf: &mut [u8]) -> std::io::Result<usize> {
+        let s = if self.sched.is_empty() { 64 } else { self.sched[self.step % self.sched.len()] };
+        self.step += 1;
+        if s == -1 {
+            return Err(std::io::Error::new(std::io::ErrorKind::Interrupted, "interrupted"));
+        }
+        if s == -2 {
+            return Err(std::io::Error::new(std::io::ErrorKind::Other, "hard error"));
+        }
+        let n = buf.len().min(self.data.len() - self.pos).min(s.max(1) as usize);
+        buf[..n].copy_from_slice(&self.data[self.pos..self.pos + n]);
+        self.pos += n;
+        Ok(n)
+    }
+}
+pub const ALGOS: [(&str, usize); 6] = [("BLAKE2s", 32), ("MD5", 16), ("RMD160", 20), ("SHA1", 20), ("SHA256", 32), ("SHA512", 64)];
+pub fn kat_input(n: usize) -> Vec<u8> {
+    (0..n).map(|i| ((i * 7 + 3) % 256) as u8).collect()
+}
+/// statement: the input with every newline-terminated line containing '$NetBSD' removed (a final unterminated line counting as terminated)
+pub fn patch_filter_oracle(b: &[u8]) -> Vec<u8> {
+    let mut out = vec![];
+    let mut i = 0;
+    while i < b.len() {
+        let mut j = i;
+        while j < b.len() && b[j] != b'\n' {
+            j += 1;
+        }
+        let line = &b[i..j];
+        let marked = line.len() >= 7 && (0..=line.len() - 7).any(|k| &line[k..k + 7] == b"$NetBSD");
+        if !marked {
+            out.extend_from_slice(line);
+            out.push(b'\n');
+        }
+        i = j + 1;
+    }
+    out
+}
+fn parse_sched(s: &str) -> Vec<i32> {
+    s.split(',').filter_map(|x| x.trim().parse().ok()).collect()
+}
+pub fn real_digest(kind: &str, algo: &str, data: &[u8], sched: &str) -> String {
+    let d = match PDigest::from_str(algo) {
+        Ok(d) => d,
+        Err(_) => return "unsupported".into(),
+    };
+    let mut rd = SchedReader { data: data.to_vec(), pos: 0, sched: parse_sched(sched), step: 0 };
+    let r = match kind {
+        "file" => d.hash_file(&mut rd),
+        "patch" => d.hash_patch(&mut rd),
+        _ => match std::str::from_utf8(data) { Ok(s) => d.hash_str(s), Err(_) => return "not-utf8".into() },
+    };
+    match r {
+        Ok(h) => h,
+        Err(_) => "error".into(),
+    }
+}
+fn gen_sched(r: &mut Rng, hard: bool) -> String {
+    let mut v: Vec<String> = (0..1 + r.below(6)).map(|_| match r.below(5) { 0 => "-1".to_string(), 1 => "1".to_string(), _ => (1 + r.below(200)).to_string() }).collect();
+    if v.iter().all(|x| x == "-1") {
+        v.push("3".into());
+    }
+    if hard {
+        v.push("-2".into());
+    }
+    v.join(",")
+}
+fn gen_patch(r: &mut Rng) -> Vec<u8> {
+    let parts: [&[u8]; 12] = [b"$NetBSD", b"$NetBSD: patch-aa,v 1.1 $", b"\n", b"\n", b"--- a/file\n", b"+++ b/file", b"$NetBS", b"NetBSD$", b"x", b"\r\n", b"$$NetBSD$", b"\xff\x00"];
+    let mut b = vec![];
+    for _ in 0..r.below(10) {
+        b.extend_from_slice(parts[r.below(12)]);
+    }
+    b
+}
+pub fn search_c13(r: &mut Rng, iters: usize) -> bool {
+    let chk = |kind: &str, algo: &str, data: &[u8], sched: &str, expect: &str| -> bool {
+        let a = real_digest(kind, algo, data, sched);
+        if a != expect {
+            witness("digest", &[("entry", kind.to_string()), ("algo", algo.to_string()), ("hexdata", hex(data)), ("sched", sched.to_string())], expect, &a);
+            return false;
+        }
+        true
+    };
+    // 1. known answers (independent implementation), through the reader entry point with three schedules, and the string entry point
+    for (algo, n, want) in crate::kat::KAT {
+        let data = kat_input(*n);
+        for sched in ["64", "1", "-1,7,-1,-1,300"] {
+            if !chk("file", algo, &data, sched, want) {
+                return false;
+            }
+        }
+    }
+    // 2. names: every case variant parses, prints canonically
+    for (algo, size) in ALGOS {
+        for mask in 0..(1u32 << algo.len()) {
+            let v: String = algo.chars().enumerate().map(|(i, c)| if mask >> i & 1 == 1 { c.to_ascii_uppercase() } else { c.to_ascii_lowercase() }).collect();
+            let shown = PDigest::from_str(&v).map(|d| d.to_string()).unwrap_or_else(|_| "unsupported".into());
+            if shown != algo {
+                witness("digest_name", &[("name", v)], algo, &shown);
+                return false;
+            }
+        }
+        for bad in [format!("{} ", algo), format!("{}x", algo), algo[1..].to_string(), String::new(), "sha".to_string(), "SHA-1".to_string()] {
+            if PDigest::from_str(&bad).is_ok() {
+                witness("digest_name", &[("name", bad)], "unsupported", "accepted");
+                return false;
+            }
+        }
+        let h = real_digest("str", algo, b"", "");
+        if h.len() != 2 * size || !h.chars().all(|c| c.is_ascii_digit() || ('a'..='f').contains(&c)) {
+            witness("digest", &[("entry", "str".into()), ("algo", algo.to_string()), ("hexdata", String::new()), ("sched", String::new())], &format!("{} lower-case hex digits", 2 * size), &h);
+            return false;
+        }
+    }
+    // 3. random inputs: schedule independence, string == reader, patch == plain hash of the filtered input, hard errors are errors
+    for n in 0..iters / 20 {
+        let (algo, _) = ALGOS[n % 6];
+        let data: Vec<u8> = if r.below(2) == 0 { gen_patch(r) } else { (0..r.below(300)).map(|_| [b'a', b'\n', b'$', 0x80, b'N'][r.below(5)]).collect() };
+        let plain = real_digest("file", algo, &data, "1000000");
+        let s1 = gen_sched(r, false);
+        if !chk("file", algo, &data, &s1, &plain) {
+            return false;
+        }
+        if std::str::from_utf8(&data).is_ok() && !chk("str", algo, &data, "", &plain) {
+            return false;
+        }
+        let filtered = patch_filter_oracle(&data);
+        let want = real_digest("file", algo, &filtered, "1000000");
+        let s2 = gen_sched(r, false);
+        if !chk("patch", algo, &data, &s2, &want) {
+            return false;
+        }
+        let s3 = gen_sched(r, true);
+        // the hard error is reached iff the schedule's earlier steps cannot deliver all data and the end-of-file read
+        let mut probe = SchedReader { data: data.clone(), pos: 0, sched: parse_sched(&s3), step: 0 };
+        let mut sink = vec![0u8; 512];
+        let mut hit = false;
+        loop {
+            match probe.read(&mut sink) {
+                Ok(0) => break,
+                Ok(_) => {}
+                Err(e) if e.kind() == std::io::ErrorKind::Interrupted => {}
+                Err(_) => { hit = true; break; }
+            }
+        }
+        let want3 = if hit { "error".to_string() } else { plain.clone() };
+        if !chk("file", algo, &data, &s3, &want3) {
+            return false;
+        }
+        if hit && !chk("patch", algo, &data, &s3, "error") {
+            return false;
+        }
+    }
+    true
+}
+/// every byte value through format!("{:02x}") as used by the hex encoder's shim contract (complete over u8)
+pub fn hex2_table_ok() -> bool {
+    (0..=255u8).all(|b| {
+        let s = format!("{b:02x}");
+        let d = |n: u8| b"0123456789abcdef"[n as usize] as char;
+        s.chars().collect::<Vec<_>>() == vec![d(b / 16), d(b % 16)]
+    })
+}
+
+/// thorough tier: print digests of a deterministic family of inputs for comparison with an independent implementation
+pub fn dump_digests(seed: u64, count: usize) {
+    let mut r = Rng::new(seed ^ 0xD16E57);
+    let lens = [0usize, 1, 54, 55, 56, 57, 63, 64, 65, 111, 112, 113, 119, 120, 127, 128, 129, 255, 256, 1023, 4097, 70001];
+    let mut n = 0;
+    while n < count {
+        let (algo, _) = ALGOS[n % 6];
+        let data: Vec<u8> = if n < 6 * lens.len() { let l = lens[n / 6]; (0..l).map(|_| r.next() as u8).collect() } else if n % 2 == 0 { gen_patch(&mut r) } else { (0..r.below(2000)).map(|_| r.next() as u8).collect() };
+        let sched = gen_sched(&mut r, false);
+        println!("DIGEST {} file {} {}", algo, hex(&data), real_digest("file", algo, &data, &sched));
+        println!("DIGEST {} patch {} {}", algo, hex(&data), real_digest("patch", algo, &data, &sched));
+        n += 1;
+    }
+}
